@@ -12,14 +12,15 @@ git -C $R checkout -q -- . ; git -C $R clean -fdq
 [ -f $B/build.ninja ] || cmake -G Ninja -S $R -B $B -DCMAKE_BUILD_TYPE=RelWithDebInfo -DBUILD_TESTING=ON -DCPM_USE_LOCAL_PACKAGES=ON -DCMAKE_CXX_FLAGS=-Wno-error >> $log 2>&1
 build() { cmake --build $B -j8 >> $log 2>&1; }
 demo() {  # compile (if C++) and run the demonstration in its directory; echo exit code
+  ARGS=$(cat $O/demo.args 2>/dev/null | sed "s|@R@|$R|g")
   cd $O
-  if [ -f demo.cpp ]; then
+  if [ -f demo.cpp ] && [ ! -f demo.sh ]; then
     g++ -std=gnu++17 -O1 -g -fopenmp -w -DUSE_OMP -DOPENMP_ITERATOR -DOPENMP_RANGEFOR -DOPENMP_UNSIGNED -DUSE_PROGRESSBAR \
       -I$R/OpenMEEG/include -I$R/OpenMEEGMaths/include -I$B -I$B/exports -I$B/OpenMEEG -I$B/OpenMEEGMaths -isystem /usr/include/hdf5/serial \
       demo.cpp -o demo.bin -Wl,-rpath,$B/OpenMEEG:$B/OpenMEEGMaths -L$B/OpenMEEG -L$B/OpenMEEGMaths -lOpenMEEG -lOpenMEEGMaths -llapacke -lopenblas -lmatio >> $log 2>&1 || { echo 99; return; }
-    timeout 600 ./demo.bin >> $log 2>&1; echo $?
+    if [ "$P" = "C05" ]; then env -u OMP_NUM_THREADS timeout 900 ./demo.bin $ARGS >> $log 2>&1; else timeout 600 ./demo.bin $ARGS >> $log 2>&1; fi; echo $?
   else
-    BUILD=$B REPO=$R timeout 900 bash ./demo.sh $B >> $log 2>&1; echo $?
+    if [ "$P" = "C05" ]; then env -u OMP_NUM_THREADS BUILD=$B REPO=$R timeout 1800 bash ./demo.sh $B >> $log 2>&1; else BUILD=$B REPO=$R timeout 900 bash ./demo.sh $B >> $log 2>&1; fi; echo $?
   fi
 }
 build || { say "unchanged tree does not build"; exit 2; }
@@ -39,7 +40,7 @@ fi
 git -C $R checkout -q -- . ; git -C $R clean -fdq; build
 if [ "$d0" = "0" ] && [ "$d1" != "0" ] && [ "$d1" != "99" ] && [ "$d1" != "-1" ] && [ "$fails" = "0" ]; then
   D=/verif/seeded/$P-$K; mkdir -p $D
-  cp $O/patch.diff $D/; [ -f $O/demo.cpp ] && cp $O/demo.cpp $D/; [ -f $O/demo.sh ] && cp $O/demo.sh $D/; cp $O/README.md $D/ 2>/dev/null
+  cp $O/patch.diff $D/; [ -f $O/demo.cpp ] && cp $O/demo.cpp $D/; [ -f $O/demo.sh ] && cp $O/demo.sh $D/; cp $O/README.md $D/ 2>/dev/null; [ -f $O/demo.args ] && cp $O/demo.args $D/
   python3 - "$D" "$P" "$NEEDS" "$d0" "$d1" <<'PY'
 import json, sys
 d, p, needs, d0, d1 = sys.argv[1:6]
